@@ -183,7 +183,8 @@ pub fn after_history_case(ops: &[super::c06::Op], rot: u16, mutsel: u16) -> Outc
 	let universe = ["a", "\u{e000}", "\u{10000}", "c"];
 	let (obj, model) = match super::c06::run_history(ops, &universe, false) {
 		Ok(x) => x,
-		Err(m) => return Outcome::fail(format!("history: {m}")),
+		// an operation that misbehaves is C06's business; this family only needs *some* object with a history
+		Err(m) => return Outcome::fail(format!("SKIP: the operation history did not produce the modelled object (C06's business) [{m}]")),
 	};
 	let a = Value::Object(obj);
 	let mut rotated = model.clone();
